@@ -182,7 +182,12 @@ def open_scenarios(run: Run, model: PyModel) -> None:
             ("an ID owned by two notes of one page", "p.zo", "- 240101#A1 see [#twice]", None, 0, ["EDIT /Z/pg/t.zo"]),
             ("an ID owned by notes of two pages", "p.zo", "- 240101#A1 see [#split]", None, 1, "ECHO"),
             ("an ID nobody owns", "p.zo", "- 240101#A1 see [#nobody]", None, 1, "ECHO"),
-            ("a ZID nobody owns", "p.zo", "- 240101#A1 see 240101#ZZ", None, 1, [])):
+            ("a ZID nobody owns", "p.zo", "- 240101#A1 see 240101#ZZ", None, 1, []),
+            # lines that are not the first line of an item have no primary ZID: every ZID on them is a target
+            ("a comment line holding one ZID", "p.zo", "# superseded by 240101#B2.", None, 0, ["EDIT /Z/pg/z.zo"]),
+            ("a comment line holding two ZIDs", "p.zo", "# Index: supersedes 240101#B2 and 240101#C3x.", None, 0, ["PROMPT 240101#B2 240101#C3x"]),
+            ("a continuation line holding a ZID and a link", "p.zo", "  and mentions 240101#B2 (see also [[q]]).", None, 0, ["PROMPT 240101#B2 [[q]]"]),
+            ("a continuation line holding one ZID", "p.zo", "  * see 240101#C3x", None, 0, ["EDIT /Z/pg/c.zo"])):
         r = go(label, pg, ["# Page", "", line, ""], 3, opt)
         if r is None:
             continue
@@ -198,7 +203,7 @@ def open_scenarios(run: Run, model: PyModel) -> None:
             exp = f"{wouts} (status {wv})"
         rid = "C17.R4" if "owned by" in label else "C17.R3"
         run.check(rid, f"{label}: {exp}", ok, "run_action_open", f"{label}: {outs} status {v!r}", f"{label} (`{line}`): the answer is {outs} with status {v!r}, expected {exp}", file=FILE, node=fo.node)
-    run.floor("action-open scenarios", n, 30)
+    run.floor("action-open scenarios", n, 34)
 
 
 def check(run: Run) -> None:
